@@ -229,6 +229,31 @@ def gen_ack(rnd):
     return t, g, cards, funs
 
 
+def gen_ack_dense(rnd):
+    """Several function symbols over ONE sort, applied to each other's results: literals between applications
+    f(a), g(a), f(g(a)), g(f(b)), ... (the consistency constraints of every symbol matter at once)."""
+    g = G(cfg=Cfg(max_depth=2, theories={"bool", "bv", "sort", "uf"}, bv_widths=[1], sorts=["S1"], nsyms=2), rnd=rnd)
+    T = g.choice([BV(1), SORT("S1"), BOOL])
+    nf = g.rnd.randint(2, 3)
+    funs = [(symname(FUN(T, (T,) * ar), k), FUN(T, (T,) * ar)) for k, ar in enumerate(g.choice([1, 1, 2]) for _ in range(nf))]
+    pool = [g.symbol(T), g.symbol(T)]
+    level = list(pool)
+    for _ in range(2):
+        nxt = []
+        for f in funs:
+            for _ in range(2):
+                nxt.append(("FUNCTION", f, tuple(g.choice(level) for _ in f[1][2])))
+        level = level + nxt
+    lits = []
+    for _ in range(g.rnd.randint(2, 4)):
+        a_, b_ = g.choice(level), g.choice(level)
+        e = ("EQUALS", (), (a_, b_)) if T != BOOL else ("IFF", (), (a_, b_))
+        lits.append(e if g.pct(50) else ("NOT", (), (e,)))
+    t = ("AND", (), tuple(lits)) if g.pct(70) else ("OR", (), (lits[0], ("AND", (), tuple(lits[1:]))))
+    used = {s_[1] for s_ in subterms(t) if s_[0] == "FUNCTION"}
+    return t, g, {"S1": g.rnd.randint(1, 2)}, [f for f in funs if f in used]
+
+
 def all_functions(ft, cards):
     """Every total function of type ft over the finite carriers, as FunV."""
     doms = [all_values(p, cards) for p in ft[2]]
@@ -416,6 +441,12 @@ def shard_cnf(shard, seed, n):
         if B.size(t) > 45:
             run.discard("too-large")
             return
+        if rnd.random() < 0.12:
+            # the input already uses the names of the next definition variables (FV0, FV1, ...)
+            from vf import names
+            bs = sorted(n for (n, ty_) in reffv(t) if ty_ == BOOL)
+            t = names.rename(t, {n: "FV%d" % i for i, n in enumerate(bs)})
+            run.cls("cnf:input-uses-fresh-looking-names")
         check_cnf(run, t, g, g.cards())
     drive(body, st.randoms(use_true_random=True), n, derive_seed(seed, "c11cnf", shard))
     return run
@@ -443,7 +474,15 @@ def shard_ack(shard, seed, n):
     run = Run(PID)
 
     def body(rnd):
-        t, g, cards, funs = gen_ack(rnd)
+        t, g, cards, funs = gen_ack(rnd) if rnd.random() < 0.65 else gen_ack_dense(rnd)
+        if len(funs) >= 2:
+            run.cls("ack:several-function-symbols")
+        if rnd.random() < 0.12:
+            # the input already uses the names the procedure would hand out next (ack0, ack1, ...)
+            from vf import names
+            cs = sorted(n for (n, ty_) in reffv(t) if not is_fun(ty_))
+            t = names.rename(t, {n: "ack%d" % i for i, n in enumerate(cs)})
+            run.cls("ack:input-uses-fresh-looking-names")
         check_ack(run, t, g, cards, funs)
     drive(body, st.randoms(use_true_random=True), n, derive_seed(seed, "c11ack", shard))
     return run
